@@ -433,6 +433,8 @@ def fmt_key(k):
             return f"[{fmt_key(k[2])}{k[1]}]"
         if h == 'f':
             return f"{k[1]}f[{fmt_key(k[2])}]"
+        if len(k) > 2 and isinstance(k[1], str) and k[1] in ('x', 'y', 'z') and isinstance(h, str):
+            return f"{h}.{k[1]}[{','.join(fmt_key(x) for x in k[2:])}]"
         if h == 'fn':
             return f"{k[1]}({fmt_key(k[2])})"
         if h == 'rat':
@@ -921,3 +923,58 @@ def sign_by_increments(p: Poly, chains, pos_atoms=(), nonneg_atoms=()):
     if r:
         return 'neg' if r == 'pos' else 'nonpos'
     return None
+
+
+# ----------------------------------------------------------------------------------------------
+# re-indexing: substitute index symbols *inside atom keys* (atoms are keyed by Rat indices)
+# ----------------------------------------------------------------------------------------------
+def _rekey(k, submap, hooks):
+    if isinstance(k, Rat):
+        return reindex(k, submap, hooks)
+    if isinstance(k, tuple):
+        return tuple(_rekey(x, submap, hooks) for x in k)
+    return k
+
+
+def reindex(r: Rat, submap, hooks=None):
+    """submap: {atom id of an index symbol: Rat}.  Every atom whose key mentions such a symbol is
+    rebuilt with the substituted index; the symbols themselves are substituted too.
+    hooks: optional {head: fn(newkey) -> Rat} to rebuild special atoms (indicators, functions)."""
+    hooks = hooks or {}
+    mp = {}
+    for a in r.atoms():
+        if a in submap:
+            mp[a] = Rat.of(submap[a])
+            continue
+        k = _ATOM_KEY[a]
+        if not isinstance(k, tuple):
+            continue
+        nk = _rekey(k, submap, hooks)
+        if nk != k:
+            h = nk[0]
+            if h == 'ind':
+                mp[a] = ind(nk[1], nk[2])
+            elif h in hooks:
+                mp[a] = hooks[h](nk)
+            else:
+                mp[a] = Rat.atom(nk)
+    return r.subs(mp)
+
+
+def map_atoms(r: Rat, fn):
+    """fn(atom key) -> Rat or None"""
+    mp = {}
+    for a in r.atoms():
+        v = fn(_ATOM_KEY[a])
+        if v is not None:
+            mp[a] = Rat.of(v)
+    return r.subs(mp)
+
+
+def atoms_with_head(r: Rat, head):
+    out = []
+    for a in r.atoms():
+        k = _ATOM_KEY[a]
+        if isinstance(k, tuple) and k and k[0] == head:
+            out.append((a, k))
+    return out
